@@ -48,16 +48,20 @@ if [ "$tests" != 0 ]; then
   done
 fi
 echo "test suite with change: exit $tests"
-cleanup; trap - EXIT
 caught=""
 if [ "$base" = 0 ] && [ "$with" != 0 ] && [ "$tests" = 0 ]; then
-  git -C /repo apply "$DEST/patch.diff" || exit 3
+  # run the checks from a private copy of the framework against the patched scratch worktree, so that
+  # /repo and /verif are never touched and several seeded changes can be examined at once
+  V=/tmp/seedverif_$ID
+  rm -rf "$V"; rsync -a --exclude .git --exclude evidence/replays /verif/ "$V/"
+  sed -i "s#=> /repo#=> $WT#" "$V/harness/go.mod"
   for c in "$@"; do
-    out=$(/verif/check "$c" quick 2>&1); rc=$?
+    out=$(cd "$V" && VERIF_REPO="$WT" ./check "$c" quick 2>&1); rc=$?
     echo "$out" | grep -E "VIOLATION|^\[check\]   |\] $c:" | cut -c1-260
     [ $rc != 0 ] && caught="$caught $c"
     echo "$out" > "$DEST/check_$c.log"
   done
-  git -C /repo checkout -- . ; git -C /repo clean -fdq -e '*verif_hooks*'
+  rm -rf "$V"
 fi
+cleanup; trap - EXIT
 echo "SUMMARY id=$ID demo_base=$base demo_with=$with tests=$tests caught_by=[$caught ]"
